@@ -663,9 +663,54 @@ def eval_repeat(rp, rng):
     return None, None, None
 
 
+
+# ----------------------------------------------------------------------------- whole GMM fit executed by the model
+def gmmloop_case(rng, tier):
+    K, D = int(rng.integers(2, 4)), int(rng.integers(1, 4))
+    N = int(rng.integers(3 * K, 3 * K + 6))
+    n = int(rng.integers(1, 6))
+    mu = rng.normal(size=(K, D)) * 4.0
+    lab = rng.integers(0, K, size=N)
+    lab[:K] = np.arange(K)
+    y = mu[lab] + rng.normal(size=(N, D))
+    init = mm.make_init(rng, K, N, (), ['positive', 'dirichlet'][int(rng.integers(0, 2))])
+    rp = {'fn': 'gmmloop', 'y': y, 'init': init, 'iterations': n}
+    return _mk(rp, 'whole GMM fit (diagonal) executed by the model K=%d D=%d N=%d iterations=%d' % (K, D, N, n), True, rng,
+               kind='gmmloop')
+
+
+def eval_gmmloop(rp, rng):
+    from pb_bss.distribution import GMMTrainer
+    y, init, n = np.array(rp['y']), np.array(rp['init']), rp['iterations']
+    K, N = init.shape
+    D = y.shape[-1]
+    model = GMMTrainer().fit(y, initialization=init, iterations=n, covariance_type='diagonal')
+    post = model.predict(y)
+    # independent NumPy run of the documented alternation
+    g = init
+    for it in range(n):
+        if it:
+            lp = -0.5 * D * np.log(2 * np.pi) - 0.5 * np.log(var).sum(-1)[:, None] \
+                 - 0.5 * (((y[None] - mean[:, None]) ** 2) / var[:, None]).sum(-1)
+            g = mm.bayes(lp, w)
+        w = g.sum(-1, keepdims=True) / g.sum()
+        den = np.maximum(g.sum(-1), TINY)
+        mean = (g @ y) / den[:, None]
+        var = np.einsum('kn,knd->kd', g, (y[None] - mean[:, None]) ** 2) / den[:, None]
+    if np.abs(model.weight - w).max() > 1e-7 or np.abs(model.gaussian.mean - mean).max() > 1e-7 * max(1, np.abs(mean).max()) \
+            or np.abs(model.gaussian.covariance - var).max() > 1e-7 * np.abs(var).max():
+        return 'GMMTrainer.fit(iterations=%d) is not %d alternations of the documented M- and E-steps' % (n, n), 'gmmloop:alternation', None
+    coq = 'check_gmm_fit %d %d %d %d %s %s %s %s %s %s %s %s' % (
+        K - 1, D, N, n, core.fhex(TINY), core.fhex(1e-10), core.fmat(y), core.fmat(init),
+        core.flist(np.asarray(model.weight).reshape(-1)), core.fmat(model.gaussian.mean), core.fmat(model.gaussian.covariance),
+        core.fmat(post))
+    return None, None, coq
+
+
 # ----------------------------------------------------------------------------- plumbing
 EVAL = {'gauss': eval_gauss, 'ccsg': eval_ccsg, 'vmf': eval_vmf, 'watson': eval_watson, 'cacg': eval_cacg,
-        'cacgfit': eval_cacgfit, 'bingham': eval_bingham, 'trace': eval_trace, 'repeat': eval_repeat}
+        'cacgfit': eval_cacgfit, 'bingham': eval_bingham, 'trace': eval_trace, 'repeat': eval_repeat,
+        'gmmloop': eval_gmmloop}
 
 
 def _perturb(rp, rng):
@@ -710,6 +755,8 @@ def cases(rng, tier):
         out.append(trace_case(rng, tier, with_aligner=True))
     for i in range(12 if q else 100):
         out.append(repeat_case(rng, tier))
+    for i in range(8 if q else 60):
+        out.append(gmmloop_case(rng, tier))
     return out
 
 
